@@ -1,0 +1,175 @@
+//go:build verif
+
+// Contracts for package hashgraph, read by the govc verifier in /verif (comment-only).
+
+package hashgraph
+
+//@ import "github.com/mosaicnetworks/babble/src/common"
+//@ import "github.com/mosaicnetworks/babble/src/crypto/keys"
+//@ import "github.com/mosaicnetworks/babble/src/peers"
+
+// ------------------------------------------------------------------------------------------------
+// Hashing and signatures (abstract). H7 is, by definition, SHA256 of the JSON encoding of an event
+// body's seven exported fields; HItx of an internal-transaction body; HBlock of a block body.
+//@ ghost func H7(txs [][]byte, itxs []InternalTransaction, parents []string, creator []byte, index int, sigs []BlockSignature, ts int64) []byte
+//@ ghost func BodyHash(b EventBody) []byte { return H7(b.Transactions, b.InternalTransactions, b.Parents, b.Creator, b.Index, b.BlockSignatures, b.Timestamp) }
+//@ ghost func HItx(b InternalTransactionBody) []byte
+//@ ghost func HBlock(b BlockBody) []byte
+//@ ghost func HexOf(e *Event) string { return common.Enc(BodyHash(e.Body)) }
+//@ ghost func CreatorOf(e *Event) string { return common.Enc(e.Body.Creator) }
+//@ ghost func ItxSigOK(t InternalTransaction) bool { return keys.SigValid(common.KeyBytesOf(t.Body.Peer.PubKeyHex), HItx(t.Body), t.Signature) }
+//@ ghost func EventSigOK(e *Event) bool { return keys.SigValid(e.Body.Creator, BodyHash(e.Body), e.Signature) && (forall k int :: 0 <= k && k < len(e.Body.InternalTransactions) ==> ItxSigOK(e.Body.InternalTransactions[k])) }
+
+// memo fields of an event hold what they cache
+//@ ghost func (e *Event) memoOK() bool { return (e.creator == "" || e.creator == CreatorOf(e)) && (e.hex == "" || e.hex == HexOf(e)) && (len(e.hash) == 0 || __seqeq(e.hash, BodyHash(e.Body))) }
+
+//@ func (e *EventBody) Hash() ([]byte, error)
+//@   trusted definition of H7 (encoding/json of the exported fields, then SHA256); json.Marshal of these field types cannot fail
+//@   modifies nothing
+//@   ensures[def] ret1 == nil && __seqeq(ret0, BodyHash(*e)) && len(ret0) == 32
+
+//@ func (i *InternalTransactionBody) Hash() ([]byte, error)
+//@   trusted definition of HItx
+//@   modifies nothing
+//@   ensures[def] ret1 == nil && __seqeq(ret0, HItx(*i)) && len(ret0) == 32
+
+//@ func (bb *BlockBody) Hash() ([]byte, error)
+//@   trusted definition of HBlock
+//@   modifies nothing
+//@   ensures[def] ret1 == nil && __seqeq(ret0, HBlock(*bb)) && len(ret0) == 32
+
+//@ func (e *Event) Creator() string
+//@   requires e != nil && e.memoOK()
+//@   modifies e.creator
+//@   ensures[def] ret0 == CreatorOf(e) && e.memoOK()
+
+//@ func (e *Event) Hash() ([]byte, error)
+//@   requires e != nil && e.memoOK()
+//@   modifies e.hash
+//@   ensures[def] ret1 == nil && __seqeq(ret0, BodyHash(e.Body)) && e.memoOK()
+
+//@ func (e *Event) Hex() string
+//@   requires e != nil && e.memoOK()
+//@   modifies e.hash, e.hex
+//@   ensures[def] ret0 == HexOf(e) && e.memoOK()
+
+//@ func (t *InternalTransaction) Verify() (bool, error)
+//@   safety on
+//@   requires t != nil
+//@   modifies nothing
+//@   ensures[valid] ret0 ==> ItxSigOK(*t)
+
+//@ func (e *Event) Verify() (bool, error)
+//@   safety on
+//@   requires e != nil
+//@   modifies nothing
+//@   ensures[valid] ret0 ==> EventSigOK(e)
+//@   loop 1 invariant[itxs] forall k int :: 0 <= k && k < __idx() ==> ItxSigOK(e.Body.InternalTransactions[k])
+
+// ------------------------------------------------------------------------------------------------
+// Ghost view of a Store (assumed at interface call sites; see the conform obligations for InmemStore).
+//   events   hash -> event          last     creator key -> hash of the creator's last event ("" if none)
+//   lastIdx  creator key -> index of that event (-1 if none)        rep  creator key -> peer (repertoire)
+//   fault    the store reported an internal failure
+//@ ghost field Store events gmap[string, *Event]
+//@ ghost field Store last gmap[string, string]
+//@ ghost field Store lastIdx gmap[string, int]
+//@ ghost field Store rep gmap[string, *peers.Peer]
+//@ ghost field Store fault bool
+//@ ghost field Store miss bool
+
+//@ iface func (s Store) GetEvent(hash string) (*Event, error)
+//@   modifies g_miss(s)
+//@   ensures[hit]  ret1 == nil ==> ret0 != nil && __in(hash, g_events(s)) && ret0 == g_events(s)[hash] && HexOf(ret0) == hash && ret0.memoOK() && __in(CreatorOf(ret0), g_rep(s)) && len(ret0.Body.Parents) == 2
+//@   ensures[missflag] (ret1 != nil && __in(hash, g_events(s)) ==> g_miss(s)) && (old(g_miss(s)) ==> g_miss(s))
+//@   ensures[miss] !__in(hash, g_events(s)) ==> ret1 != nil
+//@   ensures[err]  ret1 != nil ==> ret0 == nil
+
+//@ iface func (s Store) LastEventFrom(participant string) (string, error)
+//@   modifies nothing
+//@   ensures[ok]      ret1 == nil ==> __in(participant, g_rep(s)) && ret0 == g_last(s)[participant] && ret0 != "" && g_lastIdx(s)[participant] >= 0 && __in(ret0, g_events(s)) && g_events(s)[ret0] != nil && g_events(s)[ret0].Body.Index == g_lastIdx(s)[participant]
+//@   ensures[empty]   common.IsStore(ret1, common.Empty) ==> __in(participant, g_rep(s)) && g_lastIdx(s)[participant] == -1 && g_last(s)[participant] == ""
+//@   ensures[unknown] !__in(participant, g_rep(s)) ==> ret1 != nil && !common.IsStore(ret1, common.Empty)
+//@   ensures[none]    __in(participant, g_rep(s)) && g_lastIdx(s)[participant] < 0 ==> ret1 != nil
+
+//@ iface func (s Store) SetEvent(event *Event) error
+//@   requires event != nil && event.memoOK()
+//@   modifies g_events(s), g_last(s), g_lastIdx(s), g_fault(s), event.hex, event.hash, event.creator
+//@   ensures[memo]   event.memoOK()
+//@   ensures[known]  ret0 == nil && __in(HexOf(event), old(g_events(s))) ==> __eq(g_events(s), __upd(old(g_events(s)), HexOf(event), event)) && __eq(g_last(s), old(g_last(s))) && __eq(g_lastIdx(s), old(g_lastIdx(s)))
+//@   ensures[new]    ret0 == nil && !__in(HexOf(event), old(g_events(s))) ==> __eq(g_events(s), __upd(old(g_events(s)), HexOf(event), event)) && __in(CreatorOf(event), g_rep(s))
+//@   ensures[head]   ret0 == nil && !__in(HexOf(event), old(g_events(s))) && (old(g_lastIdx(s))[CreatorOf(event)] < 0 || event.Body.Index == old(g_lastIdx(s))[CreatorOf(event)]+1) ==> __eq(g_last(s), __upd(old(g_last(s)), CreatorOf(event), HexOf(event))) && __eq(g_lastIdx(s), __upd(old(g_lastIdx(s)), CreatorOf(event), event.Body.Index))
+//@   ensures[refuse] ret0 != nil ==> __eq(g_events(s), old(g_events(s))) && __eq(g_last(s), old(g_last(s))) && __eq(g_lastIdx(s), old(g_lastIdx(s)))
+//@   ensures[fault]  ret0 != nil && __in(HexOf(event), old(g_events(s))) ==> g_fault(s)
+//@   ensures[nofix]  old(g_fault(s)) ==> g_fault(s)
+//@   ensures[accept] ret0 != nil && !__in(HexOf(event), old(g_events(s))) && __in(CreatorOf(event), g_rep(s)) && event.Body.Index >= 0 && (old(g_lastIdx(s))[CreatorOf(event)] < 0 || event.Body.Index == old(g_lastIdx(s))[CreatorOf(event)]+1) ==> g_fault(s)
+
+//@ iface func (s Store) RepertoireByPubKey() map[string]*peers.Peer
+//@   modifies nothing
+//@   ensures[view] ret0 != nil && (forall k string :: __in(k, ret0) == __in(k, g_rep(s))) && (forall k string :: __in(k, ret0) ==> ret0[k] == g_rep(s)[k] && ret0[k] != nil)
+
+// ------------------------------------------------------------------------------------------------
+// Event admission (C07)
+
+//@ func (h *Hashgraph) checkSelfParent(event *Event) error
+//@   requires h != nil && event != nil && event.memoOK() && len(event.Body.Parents) == 2
+//@   modifies event.creator, g_miss(h.Store)
+//@   ensures[creator] ret0 == nil ==> __in(CreatorOf(event), g_rep(h.Store))
+//@   ensures[known]   ret0 == nil && event.Body.Parents[0] != "" ==> __in(event.Body.Parents[0], g_events(h.Store))
+//@   ensures[miss]    old(g_miss(h.Store)) ==> g_miss(h.Store)
+//@   ensures[head]    ret0 == nil ==> (g_lastIdx(h.Store)[CreatorOf(event)] == -1 && event.Body.Parents[0] == "") || (g_lastIdx(h.Store)[CreatorOf(event)] >= 0 && event.Body.Parents[0] == g_last(h.Store)[CreatorOf(event)] && event.Body.Parents[0] != "")
+//@   ensures[index]   ret0 == nil ==> event.Body.Index == g_lastIdx(h.Store)[CreatorOf(event)] + 1
+//@   ensures[memo]    event.memoOK()
+
+//@ func (h *Hashgraph) checkOtherParent(event *Event) error
+//@   requires h != nil && event != nil && len(event.Body.Parents) == 2
+//@   modifies g_miss(h.Store)
+//@   ensures[present] ret0 == nil && event.Body.Parents[1] != "" ==> __in(event.Body.Parents[1], g_events(h.Store))
+//@   ensures[miss]    old(g_miss(h.Store)) ==> g_miss(h.Store)
+
+//@ func (c CoordinatesMap) Copy() CoordinatesMap
+//@   modifies nothing
+//@   ensures[fresh] __fresh(ret0)
+//@   ensures[copy]  forall k string :: __in(k, ret0) == __in(k, c) && ret0[k] == c[k]
+//@   loop 1 invariant[fresh] __fresh(res)
+//@   loop 1 invariant[part]  forall k string :: (__in(k, res) ==> __in(k, c) && res[k] == c[k]) && (__vis(k) ==> __in(k, res))
+
+// storeView: the ghost view of the store is the same as at entry
+//@ ghost func (h *Hashgraph) viewOf() Store { return h.Store }
+
+//@ func (h *Hashgraph) initEventCoordinates(event *Event) error
+//@   requires h != nil && event != nil && event.memoOK() && len(event.Body.Parents) == 2
+//@   modifies event.lastAncestors, event.firstDescendants, event.creator, event.hex, event.hash, g_miss(h.Store)
+//@   ensures[ok]   ret0 == nil && event.memoOK() && (old(g_miss(h.Store)) ==> g_miss(h.Store))
+//@   ensures[maps] event.lastAncestors != nil && event.firstDescendants != nil && __fresh(event.lastAncestors) && __fresh(event.firstDescendants)
+
+//@ func (h *Hashgraph) witness(x string) (bool, error)
+//@   trusted memoising wrapper around _witness (covered under C03); here only its frame is used
+//@   modifies nothing
+
+//@ func (h *Hashgraph) updateAncestorFirstDescendant(event *Event) error
+//@   requires h != nil && event != nil && event.memoOK() && event.lastAncestors != nil
+//@   modifies g_events(h.Store), g_fault(h.Store), g_miss(h.Store), any Event.creator, any Event.hex, any Event.hash, anymap CoordinatesMap
+//@   ensures[view]  __eq(g_events(h.Store), old(g_events(h.Store))) && __eq(g_last(h.Store), old(g_last(h.Store))) && __eq(g_lastIdx(h.Store), old(g_lastIdx(h.Store)))
+//@   ensures[fault] ret0 != nil ==> g_fault(h.Store)
+//@   ensures[memo]  event.memoOK()
+//@   loop 1 modifies g_events(h.Store), g_fault(h.Store), g_miss(h.Store), any Event.creator, any Event.hex, any Event.hash, anymap CoordinatesMap
+//@   loop 2 modifies g_events(h.Store), g_fault(h.Store), g_miss(h.Store), any Event.creator, any Event.hex, any Event.hash, anymap CoordinatesMap
+//@   loop 1 invariant[view] __eq(g_events(h.Store), old(g_events(h.Store))) && __eq(g_last(h.Store), old(g_last(h.Store))) && __eq(g_lastIdx(h.Store), old(g_lastIdx(h.Store))) && event.memoOK() && (old(g_fault(h.Store)) ==> g_fault(h.Store))
+//@   loop 2 invariant[view] __eq(g_events(h.Store), old(g_events(h.Store))) && __eq(g_last(h.Store), old(g_last(h.Store))) && __eq(g_lastIdx(h.Store), old(g_lastIdx(h.Store))) && event.memoOK() && (old(g_fault(h.Store)) ==> g_fault(h.Store))
+
+//@ func (h *Hashgraph) InsertEvent(event *Event, setWireInfo bool) error
+//@   requires h != nil && event != nil && event.memoOK() && len(event.Body.Parents) == 2 && h.PendingSignatures != nil && h.PendingSignatures.items != nil
+//@   ensures[signed]               ret0 == nil ==> EventSigOK(event)
+//@   ensures[known-creator]        ret0 == nil ==> __in(CreatorOf(event), g_rep(h.Store))
+//@   ensures[self-parent-is-head]  ret0 == nil ==> (old(g_lastIdx(h.Store))[CreatorOf(event)] == -1 && event.Body.Parents[0] == "") || (old(g_lastIdx(h.Store))[CreatorOf(event)] >= 0 && event.Body.Parents[0] != "" && event.Body.Parents[0] == old(g_last(h.Store))[CreatorOf(event)])
+//@   ensures[other-parent-present] ret0 == nil && event.Body.Parents[1] != "" ==> __in(event.Body.Parents[1], old(g_events(h.Store)))
+//@   ensures[index-extends-chain]  ret0 == nil ==> event.Body.Index == old(g_lastIdx(h.Store))[CreatorOf(event)] + 1
+//@   ensures[stored]               ret0 == nil ==> __eq(g_events(h.Store), __upd(old(g_events(h.Store)), HexOf(event), event))
+//@   ensures[known-grows-by-one]   ret0 == nil && !__in(HexOf(event), old(g_events(h.Store))) ==> __eq(g_lastIdx(h.Store), __upd(old(g_lastIdx(h.Store)), CreatorOf(event), event.Body.Index)) && __eq(g_last(h.Store), __upd(old(g_last(h.Store)), CreatorOf(event), HexOf(event)))
+//@   ensures[rejected-unchanged]   ret0 != nil && !g_fault(h.Store) ==> __eq(g_events(h.Store), old(g_events(h.Store))) && __eq(g_last(h.Store), old(g_last(h.Store))) && __eq(g_lastIdx(h.Store), old(g_lastIdx(h.Store))) && __seqeq(h.UndeterminedEvents, old(h.UndeterminedEvents))
+//@   ensures[body-kept]            __seqeq(BodyHash(event.Body), old(BodyHash(event.Body))) && event.Signature == old(event.Signature)
+//@   ensures[topo-success]         ret0 == nil ==> h.topologicalIndex == old(h.topologicalIndex) + 1 && event.topologicalIndex == old(h.topologicalIndex)
+//@   ensures[topo-rejected]        ret0 != nil && !g_fault(h.Store) && !g_miss(h.Store) && !old(g_miss(h.Store)) ==> h.topologicalIndex == old(h.topologicalIndex)
+//@   aux[queued]                   ret0 == nil ==> len(h.UndeterminedEvents) == len(old(h.UndeterminedEvents)) + 1 && h.UndeterminedEvents[len(h.UndeterminedEvents)-1] == HexOf(event)
+//@   loop 1 modifies h.PendingSignatures.items[*]
